@@ -591,7 +591,8 @@ fn gen_c14(ctx: &mut Ctx) {
     for wk in 0..walks {
         let k = 1 + (wk % 4);
         // every third walk uses addresses that coincide with data-frame header values (chunk offsets 0/16, counts 1/2)
-        let addrs: Vec<u16> = if wk % 3 == 2 { [16u16, 1, 0, 2][..k].to_vec() } else { all_addrs[..k].to_vec() };
+        // ... and every fifth walk addresses that agree in their low byte (3 / 0x0103, 0xFF / 0xFFFF)
+        let addrs: Vec<u16> = if wk % 5 == 4 { [3u16, 0x0103, 0xFFFF, 0x00FF][..k].to_vec() } else if wk % 3 == 2 { [16u16, 1, 0, 2][..k].to_vec() } else { all_addrs[..k].to_vec() };
         let styles: Vec<PageFlipStyle> = (0..k).map(|i| if (wk / 4 + i) % 2 == 0 { PageFlipStyle::Manual } else { PageFlipStyle::Automatic }).collect();
         let signs: Vec<VirtualSign<'static>> = (0..k).map(|i| VirtualSign::new(Address(addrs[i]), styles[i])).collect();
         let mut bus = VirtualSignBus::new(signs);
@@ -1200,6 +1201,19 @@ fn gen_c10(ctx: &mut Ctx) {
             ctx.monitor(outcome == "DONE" && trace.len() == script.len() && !after_err, "C11-invariants", &short, &format!("outcome {} after {} messages", outcome, trace.len()));
         }
     }
+    // a bus that takes real time (thorough tier only: each case costs its delay): an in-progress report arriving 6 s and
+    // 13 s into a page flip, and a slow acknowledgement in the middle of a transfer, change nothing
+    if thorough {
+        for (idx, ms, op, script) in [
+            (3usize, 6000u64, "SHW.3.64", "RS.3.PLD AO.3.SLP RS.3.PSP RS.3.PSP RS.3.PSH"),
+            (2, 13000, "LNX.3.64", "RS.3.PSH AO.3.LNP RS.3.PLP RS.3.PLD"),
+            (1, 6000, "SND.3.8.8.01100000FFFFFFFFFFFFFFFFFFFFFFFF", "AO.3.RPX N N RS.3.PRX N RS.3.PLD"),
+        ] {
+            let line = format!("CTD {} {} {} {}", idx, ms, op, script);
+            let res = ctx.case(line.clone(), true, "slow-bus");
+            ctx.monitor(res.ends_with("=> DONE") || res.ends_with("=> DONE.M"), "C11-invariants", &line, &res);
+        }
+    }
     gen_cts(ctx, if thorough { 6000 } else { 600 }, 1011);
 }
 
@@ -1413,7 +1427,7 @@ fn gen_c09(ctx: &mut Ctx) {
             continue;
         }
         // retry pattern: how many failure reports before success (0..3), plus an occasional deviation
-        let fails = rng.below(4);
+        let fails = if k == 14 { 0 } else { rng.below(4) };
         // one interactive run: the bus decides each cooperative reply when it is asked for it
         let script: Vec<String> = {
             let mut r2 = Rng::new(rng.next(), 909);
@@ -1450,7 +1464,7 @@ fn gen_c09(ctx: &mut Ctx) {
                     _ => "N".to_string(),
                 })
             };
-            let bus = Rc::new(RefCell::new(CoopBus { trace: vec![], script: vec![], decide: Box::new(decide), limit: 30000 }));
+            let bus = Rc::new(RefCell::new(CoopBus { trace: vec![], script: vec![], decide: Box::new(decide), limit: 300000 }));
             let _ = run_cop(&op, bus.clone());
             let b = bus.borrow();
             b.script.clone()
